@@ -17,7 +17,9 @@ def run(ctx):
     if ctx.quick:
         rnd.shuffle(c2); rnd.shuffle(c1)
         seg = [c for c in c2 if c[0].startswith("single-seg")]
-        c2, c1 = seg + [c for c in c2 if not c[0].startswith("single-seg")][:350 - len(seg)], c1[:350]
+        zt = [c for c in c1 if c[0].startswith("zerotail")]
+        c2, c1 = seg + [c for c in c2 if not c[0].startswith("single-seg")][:350 - len(seg)], \
+            zt[:60] + [c for c in c1 if not c[0].startswith("zerotail")][:350 - min(60, len(zt))]
     else:
         c2 = gen.gen_pm2(rnd, False); c1 = gen.gen_pm1(rnd, False)
     for (tag, line, variant, g) in c2:
